@@ -268,6 +268,9 @@ def load(repo=None):
     from . import normalise
 
     normalise.apply(f)
+    from . import rx
+
+    rx.set_consts(f)
     _CACHE[repo] = f
     return f
 
